@@ -29,6 +29,7 @@ func main() {
 	workers := fs.Int("workers", runtime.NumCPU(), "parallel workers")
 	budget := fs.Float64("budget", 1, "case count multiplier")
 	replay := fs.String("replay", "", "replay file")
+	fs.IntVar(&kindCap, "kindcap", 3, "violations recorded per kind")
 	fs.IntVar(&c03From, "from", 0, "first case index (child mode)")
 	fs.IntVar(&c03To, "to", 0, "end case index (child mode)")
 	fs.Parse(os.Args[2:])
